@@ -337,7 +337,7 @@ func VerifC36_compress() {
 	m.Questions = []Question{{Name: qname, Type: TypeNS, Class: ClassINET}}
 	ns := c36resource(pool.pick("ns owner"), &NSResource{NS: pool.pick("ns target")})
 	mx := c36resource(mxOwner, &MXResource{Pref: vfU16("pref"), MX: pool.pick("mx target")})
-	switch vfChoice("layout", 2+vfTier()) {
+	switch vfChoice("layout", 3) { // (all three layouts in both tiers since seeded change C36-H: "MX first" is the one in which a later record reuses a name first written inside an MX body)
 	case 0: // same section
 		c36place(&m, 0, ns)
 		c36place(&m, 0, mx)
